@@ -323,20 +323,22 @@ def mk_two_copies(name, lo, width=2.509):
     return body
 
 
-def mk_two_copies_text(name, at_origin=False):
+def mk_two_copies_text(name, at_origin=False, raw=False):
     """as O3, the far copy written into the PDB text itself (so that the coordinate columns are read, all 8 of them):
     offsets that make the fields 8 characters wide, along each axis"""
     def body(ctx):
         from . import micro as M
         from .c04 import with_hydrogens_text
-        txt = with_hydrogens_text(name)
+        # raw: the fixture's own record layout (protein, TER, hetero block) with hydrogens built by the program; the parts are
+        # concatenated as they are (no TER between the first part's hetero block and the second part's chain)
+        txt = M.text(name) if raw else with_hydrogens_text(name)
         axis = ctx.choice('axis', [0, 1, 2])
         off = ctx.choice('offset', [1004.0, 2000.0, 5011.5, 9000.0, -960.0, 64.0])
         copy, first = [], []
         xyz = [[float(l[30:38]), float(l[38:46]), float(l[46:54])] for l in txt.split('\n') if l.startswith('ATOM')]
         cen = [round(sum(p[i] for p in xyz) / len(xyz), 3) if at_origin else 0.0 for i in range(3)]
         for l in txt.split('\n'):
-            if l.startswith('ATOM'):
+            if l[:6] in ('ATOM  ', 'HETATM'):
                 c = [float(l[30:38]) - cen[0], float(l[38:46]) - cen[1], float(l[46:54]) - cen[2]]
                 first.append(l[:30] + '%8.3f%8.3f%8.3f' % tuple(c) + l[54:])
                 c[axis] += off
@@ -344,8 +346,8 @@ def mk_two_copies_text(name, at_origin=False):
             elif l:
                 copy.append(l)
                 first.append(l)
-        base = _base_run(name)
-        both = M.run('\n'.join(first) + '\n' + '\n'.join(copy) + '\n', args=['--keep-protons'])
+        base = M.run(txt) if raw else _base_run(name)
+        both = M.run('\n'.join(first) + '\n' + '\n'.join(copy) + '\n', args=[] if raw else ['--keep-protons'])
         gb = M.groups(base)
         g2 = M.groups(both)
         for (lab, typ), lst in gb.items():
@@ -356,7 +358,7 @@ def mk_two_copies_text(name, at_origin=False):
                     continue
                 for a, b in zip(lst, g2[(lab2, typ)]):
                     ctx.claim('desolvation-as-alone', a.num_volume == b.num_volume and abs(a.energy_volume - b.energy_volume) < 1e-9 and abs(a.buried - b.buried) < 1e-9, detail=lab2)
-                    ctx.claim('pka-as-alone', abs(a.pka_value - b.pka_value) < 1e-9, detail='%s: %r vs %r' % (lab2, a.pka_value, b.pka_value))
+                    ctx.claim('pka-as-alone', abs(a.pka_value - b.pka_value) < (0.0101 if raw else 1e-9), detail='%s: %r vs %r' % (lab2, a.pka_value, b.pka_value))
     return body
 
 
@@ -438,6 +440,10 @@ def obligations(tier):
         obs.append(Obligation('O3-two-copies-in-the-text[%s]' % name, mk_two_copies_text(name), code=['propka/atom.py:Atom.set_properties', 'propka/run.py:single (whole pipeline)'],
                               bounds='%s and a copy (chain B) written into the text 64, -960, 1004, 2000, 5011.5 or 9000 A away along x, y or z (18 concrete files)' % name, kind='table-check',
                               claim_doc='each copy gets the desolvation and pKa of the structure alone', max_paths=200))
+    for name in (['complex_ZN'] if tier == 'quick' else ['complex_ZN', 'complex_MTX']):
+        obs.append(Obligation('O3-two-copies-in-the-text[%s,records as in the file]' % name, mk_two_copies_text(name, raw=True), code=['propka/input.py:get_atom_lines_from_pdb', 'propka/run.py:single (whole pipeline)'],
+                              bounds='%s (protein, TER, hetero block) followed directly by a copy (chain B) 64 ... 9000 A away along x, y or z (18 concrete files, hydrogens built by the program)' % name, kind='table-check',
+                              claim_doc='each copy has the groups (incl. its N-terminus), the desolvation and, within 0.01, the pKa of the structure alone', max_paths=200))
     # an incompletely modelled residue in each part, the first part sitting at the coordinate origin (a point that does not move with a part)
     for name in (['tri_ASP~-OD1-OD2@25'] if tier == 'quick' else ['tri_ASP~-OD1-OD2@25', 'tri_GLU~-OE1-OE2@21', 'tri_ASP~-OD2@25', 'pep8~-OD1-OD2@29']):
         obs.append(Obligation('O3-two-copies-in-the-text[%s,first at the origin]' % name, mk_two_copies_text(name, at_origin=True), code=['propka/group.py:*Group.setup_atoms', 'propka/group.py:Group.set_center', 'propka/run.py:single (whole pipeline)'],
